@@ -86,6 +86,18 @@ theorem coh_erase {s : EState} (h : Coh c s) (es as : List Snap) (log : List Ev)
     split at hg
     · rename_i hm; simp only [hm, if_true]; exact memoErase_some as s.memoA _ v hg
     · cases hg
+  · intro k v hg
+    apply h.ke k v
+    unfold memoGetE at hg ⊢
+    split at hg
+    · rename_i hm; simp only [hm, if_true]; exact memoErase_some es s.memoE _ v hg
+    · cases hg
+  · intro k v hg
+    apply h.ka k v
+    unfold memoGetA at hg ⊢
+    split at hg
+    · rename_i hm; simp only [hm, if_true]; exact memoErase_some as s.memoA _ v hg
+    · cases hg
 
 theorem coh_resetVariable {s : EState} (h : Coh c s) (w : WM) (v : Snap) : Coh c (resetVariable w v s) := by
   unfold resetVariable
@@ -226,7 +238,7 @@ theorem callBuiltin_effect_sound (s : EState) (f : String) (args : List Val) (hf
   dsimp only
   have hcp : Coh c (s.push (Ev.builtin f args)) := coh_push _ hc
   have hflag : ∀ (r : List String) (b : Bool), Coh c { s.push (Ev.builtin f args) with retracted := r, complete := b } :=
-    fun _ _ => ⟨fun x v hx hg => hc.e x v hx hg, fun x v hx hg => hc.a x v hx hg⟩
+    fun _ _ => ⟨fun x v hx hg => hc.e x v hx hg, fun x v hx hg => hc.a x v hx hg, fun k v hg => hc.ke k v hg, fun k v hg => hc.ka k v hg⟩
   by_cases hany : (args.any (· == .invalid)) = true
   · simp only [hany, if_true]; exact ⟨trivial, rfl, hcp⟩
   · simp only [hany]
@@ -738,12 +750,22 @@ theorem coh_empty (s : EState) (h1 : s.memoE = []) (h2 : s.memoA = []) : Coh c s
     unfold memoGetA at hg
     rw [h2] at hg
     split at hg <;> simp [snapGet] at hg
+  · intro k v hg
+    unfold memoGetE at hg
+    rw [h1] at hg
+    split at hg <;> simp [snapGet] at hg
+  · intro k v hg
+    unfold memoGetA at hg
+    rw [h2] at hg
+    split at hg <;> simp [snapGet] at hg
 
 /-- without memoisation there is nothing to keep coherent -/
 theorem coh_memo_off (hm : c.memo = false) (s : EState) : Coh c s := by
   constructor
   · intro x v _ hg; simp [memoGetE, hm] at hg
   · intro x v _ hg; simp [memoGetA, hm] at hg
+  · intro k v hg; simp [memoGetE, hm] at hg
+  · intro k v hg; simp [memoGetA, hm] at hg
 
 theorem frameHyp_memo_off (hm : c.memo = false) (T : Var → Prop) : FrameHyp c T :=
   fun _ s' _ _ _ _ _ => coh_memo_off hm s'
